@@ -257,6 +257,8 @@ def _cwd_independence(ctx, repo) -> None:
 
 def check(ctx) -> None:
     repo = ctx.repo
+    ctx.rule("C29.open-bindings", "ABSINT: the loop over the open-like bindings, interpreted with the real builtins / io / pathlib / os modules, patches builtins.open, io.open, Path.open and os.open", floor=4)
+    _open_bindings(ctx, repo)
     ctx.rule("C29.modes", "ABSINT: _is_write_mode over every mode string open() accepts (r/w/a/x, +, b/t in any order) answers write exactly for the modes that can change or create the file", floor=40)
     _open_modes(ctx, repo)
     ctx.rule("C29.cwd", "ABSINT: _abspath of a relative name follows the current working directory although helpers are memoised (the cache is modelled across a chdir)", floor=2)
@@ -488,3 +490,44 @@ def check(ctx) -> None:
         roots = {defs.get(x, x) for x in names if x in t}
         ok = ok and any("self._tmp.name" in r for r in roots) and not any(k in t for k in ("cwd", "home", "'/"))
     ctx.check("C29.foreign", isf, ok, "_is_foreign exempts paths other than the isolation's own temporary directory", what="only the isolation tmp dir is exempt", stmt="[exempt]")
+
+
+def _open_bindings(ctx, repo) -> None:
+    """Every binding through which code under test reaches an open() is replaced: builtins.open, io.open (the same
+    function object, but a binding of its own - zipfile and friends call io.open), Path.open and os.open.  The loop over
+    the open-like bindings is interpreted with the real modules, so a de-duplication by function identity shows."""
+    import builtins
+    import io
+    import os as _os
+    from pathlib import Path as _Path
+
+    from sa.engine import peval
+
+    fn = repo.func(FS, "FilesystemIsolation._initialize_patches")
+    ctx.analysed(fn)
+    mod = repo.module(FS)
+    anchor = next((s for s in fn.body if isinstance(s, ast.Assign) and norm(s.targets[0]) == "open_patches"), None)
+    if anchor is None:
+        raise AnalysisError("C29.open-bindings: `open_patches` table vanished from _initialize_patches")
+    start = fn.body.index(anchor)
+    block = fn.body[start:]
+    patched = []
+    selfobj = peval.Obj("isolation")
+    selfobj.methods["_create_open_tracked"] = lambda original: ("tracked", original)
+    selfobj.methods["_os_open_tracked"] = lambda original: ("tracked", original)
+    stack = peval.Obj("exit_stack")
+    stack.methods["enter_context"] = lambda cm: cm
+    selfobj.fields["_exit_stack"] = stack
+    it = peval.Interp(resolver=peval.repo_resolver(repo), native_types=(type(builtins), type, type(open)), max_steps=20000,
+                      consts={"builtins": builtins, "io": io, "Path": _Path, "os": _os},
+                      externs={"patch.object": lambda target, name, **k: patched.append((target, name)) or ("patch", target, name)})
+    try:
+        it.block(block, {"self": selfobj}, mod)
+    except peval._Return:
+        pass
+    except (peval.Undecided, peval.Raises) as exc:
+        ctx.undecide("C29.open-bindings", anchor, f"open-like patches: {exc}")
+        return
+    for target, name, label in ((builtins, "open", "builtins.open"), (io, "open", "io.open"), (_Path, "open", "Path.open"), (_os, "open", "os.open")):
+        ok = any(t is target and n == name for t, n in patched)
+        ctx.check("C29.open-bindings", anchor, ok, f"`{label}` is not replaced while a test case runs (patched: {[(getattr(t, '__name__', t), n) for t, n in patched]}): code that opens files through this binding - zipfile.ZipFile(path, 'w') calls io.open - overwrites pre-existing files and leaves created ones behind", what=f"{label} is patched", stmt=f"[open binding] {label}")
